@@ -53,3 +53,35 @@ func VerifC14Consistent() {
 	}
 	verifCover("end")
 }
+
+func init() {
+	verifHarnesses["VerifC14Duplicates"] = VerifC14Duplicates
+}
+
+// VerifC14Duplicates: two lexical definitions of the same kind with SYMBOLIC one-letter names:
+// NewLexPart yields a lexical part iff the names differ (a duplicate is refused by an error or
+// by the panic of LexProdMap.Add, which makes gocc exit non-zero).
+func VerifC14Duplicates() {
+	kind := verifParam("KIND", 0)
+	a, b := verifNondetByte("a"), verifNondetByte("b")
+	verifAssume('a' <= a && a <= 'c' && 'a' <= b && b <= 'c')
+	mk := func(c byte) LexProduction {
+		pat := &LexPattern{}
+		switch kind {
+		case 1:
+			return &LexRegDef{id: "_" + string([]byte{c}), pattern: pat}
+		case 2:
+			return &LexIgnoredTokDef{id: "!" + string([]byte{c}), pattern: pat}
+		}
+		return &LexTokDef{id: string([]byte{c}), pattern: pat}
+	}
+	lp, err := NewLexPart(nil, nil, &LexProductions{Productions: []LexProduction{mk(a), mk(b)}})
+	if a == b {
+		verifAssert(err != nil && lp == nil, "a definition given twice is refused")
+		verifCover("duplicate reported by error")
+	} else {
+		verifAssert(err == nil && lp != nil, "distinct definitions are accepted")
+		verifCover("distinct")
+	}
+	verifCover("end")
+}
